@@ -3,7 +3,7 @@
    Instruction edges come from the in-order traversal log of the function (the UsedVisitor's
    callbacks), i.e. from the REGENERATED [visited_refs] of Gen/Ops.v. *)
 From Coq Require Import List NArith ZArith Bool. Import ListNotations.
-From WV Require Import Gen.Ops Model.Common Model.IR Model.Arena Model.Traversal Model.ModuleM Model.ParseM Model.EmitM.
+From WV Require Import Gen.Ops Model.Common Model.IR Model.Arena Model.Traversal Model.Locals Model.ModuleM Model.ParseM Model.EmitM.
 Open Scope N_scope.
 
 Definition ent := (space * N)%type.         (* an entity: (index space, id); S_type entries are "used" marks only *)
@@ -112,7 +112,7 @@ Definition used (m : wir) : res (list ent) :=
   | _, _, _ => Ok u
   end)).
 
-(* gc::run *)
+(* gc::run: the sweep *)
 Definition delete_unused {A} (a : tarena A) (keep : list N) : res (tarena A) :=
   fold_left (fun acc p => rbind acc (fun a => if existsb (N.eqb (fst p)) keep then Ok a else of_opt (adelete a (fst p))))
             (aiter a) (Ok a).
@@ -121,7 +121,7 @@ Definition types_delete_unused (s : aset mtype) (keep : list N) : res (aset mtyp
                                              else of_opt (aset_remove (fun x => x) mtype_eqb s (fst p))))
             (aset_iter s) (Ok s).
 
-Definition gc (m : wir) : res wir :=
+Definition gc_sweep (m : wir) : res wir :=
   rbind (used m) (fun u =>
   let import_used (i : mimport) := match im_kind i with
                                    | MI_Func f => mem_ent (S_func, f) u | MI_Table t => mem_ent (S_table, t) u
@@ -135,3 +135,29 @@ Definition gc (m : wir) : res wir :=
   rbind (types_delete_unused (m_types m) (used_of u S_type)) (fun tya =>
   rbind (delete_unused (m_funcs m) (used_of u S_func)) (fun fa =>
   Ok (set_funcs (set_types (set_elements (set_data (set_memories (set_globals (set_tables (set_imports m ia) ta) ga) ma) da) ea) tya) fa)))))))))).
+
+(* gc::run, last step (declare_referenced_funcs): a `ref.func f` in a kept body needs f declared outside function bodies - by an
+   export, an element segment or a global initialiser; what declared it may just have been removed, so the functions that would be
+   left undeclared are listed in ONE new declared element segment (sorted by id; nothing is added when there is none). *)
+Definition ref_funcs_of_log (evs : list ev) : list N :=
+  flat_map (fun e => match e with EInstr (IPlain (P_RefFunc f)) _ => [f] | _ => [] end) evs.
+(* the RefFuncs visitor over every live local function (after the sweep: the kept ones) *)
+Definition referenced_funcs (m : wir) : res (list N) :=
+  rmap (@concat N) (rmapM (fun p => match fn_kind (snd p) with
+                                    | FK_Local lf => rmap ref_funcs_of_log (lf_log lf)
+                                    | _ => Ok [] end) (aiter (m_funcs m))).
+Definition declared_funcs (m : wir) : list N :=
+  flat_map (fun p => match ex_kind (snd p) with EK_Func => [ex_item (snd p)] | _ => [] end) (aiter (m_exports m)) ++
+  flat_map (fun p => match el_items (snd p) with
+                     | ELI_Funcs fs => fs
+                     | ELI_Exprs _ es => flat_map (fun c => match c with MC_RefFunc f => [f] | _ => [] end) es end) (aiter (m_elements m)) ++
+  flat_map (fun p => match gl_kind (snd p) with GK_Local (MC_RefFunc f) => [f] | _ => [] end) (aiter (m_globals m)).
+Definition undeclared_funcs (m : wir) : res (list N) :=
+  rmap (fun refd => sort_ids (filter (fun f => negb (existsb (N.eqb f) (declared_funcs m))) refd)) (referenced_funcs m).
+Definition declare_referenced_funcs (m : wir) : res wir :=
+  rmap (fun fs => match fs with
+                  | [] => m
+                  | _ :: _ => set_elements m (fst (aalloc (m_elements m) {| el_kind := ELK_Declared; el_items := ELI_Funcs fs; el_name := None |}))
+                  end) (undeclared_funcs m).
+
+Definition gc (m : wir) : res wir := rbind (gc_sweep m) declare_referenced_funcs.
